@@ -220,6 +220,18 @@ func (c *Client) sendRepublishRequests(ctx context.Context, sub *Subscription, a
 				c.notifySubscription(ctx, sub, res.NotificationMessage)
 				sub.lastSeq = res.NotificationMessage.SequenceNumber
 				sub.nextSeq = sub.lastSeq + 1
+
+				// Republish does not acknowledge: the message stays in the
+				// retransmission queue of the server until it is acknowledged
+				// with the next publish request. See Part 4, 5.13.6
+				if len(res.NotificationMessage.NotificationData) > 0 {
+					c.subMux.Lock()
+					c.pendingAcks = append(c.pendingAcks, &ua.SubscriptionAcknowledgement{
+						SubscriptionID: sub.SubscriptionID,
+						SequenceNumber: res.NotificationMessage.SequenceNumber,
+					})
+					c.subMux.Unlock()
+				}
 				debug.Printf("Republished notification %d for subscription %d", res.NotificationMessage.SequenceNumber, sub.SubscriptionID)
 
 				if len(availableSeq) > 0 && !slices.Contains(availableSeq, sub.nextSeq) {
